@@ -787,6 +787,14 @@ func astFromValue(value interface{}, ttype Type) ast.Value {
 		}
 	}
 
+	// The literal form of a custom scalar is its serialized form (the built-in
+	// scalars' internal values already are in literal form).
+	if ttype, ok := ttype.(*Scalar); ok && ttype != Int && ttype != Float && ttype != String && ttype != Boolean && ttype != ID {
+		if serialized := ttype.Serialize(value); !isNullish(serialized) {
+			value = serialized
+		}
+	}
+
 	if value, ok := value.(bool); ok {
 		return ast.NewBooleanValue(&ast.BooleanValue{
 			Value: value,
